@@ -43,7 +43,7 @@ def seeded_table():
             continue
         m = json.load(open(mp))
         rows.append("| %s | %s | %s | %s; %s | %s |" % (sid, m.get("property"), (m.get("needs") or "").replace("|", "/"), "yes" if m.get("confirmed") else "NO",
-                                                     (m.get("repo_tests_on_changed") or "").strip("= ")[:24], (", ".join(m.get("caught_by") or []) or "**missed**") + (" (first run: missed, then workload widened)" if m.get("first_run") else "")))
+                                                     (m.get("repo_tests_on_changed") or "").strip("= ")[:24], (", ".join(m.get("caught_by") or []) or "**missed**") + (" - " + m["first_run"] if m.get("first_run") else "")))
     return "\n".join(rows)
 
 
